@@ -129,7 +129,8 @@ def check_config(ctx, drv, cfg, L2, max_index, case_out=None, sibling=False):
     base_tags = {"strategy": cfg["strategy"], "ref": rclass, "norm": cfg["norm"], "dim": cfg["dim"],
                  "scale": cfg.get("scale", 1.0), "cache": cfg.get("cache", True), "reevaluate_at_end": bool(cfg.get("reeval")),
                  "final_stop": "max" if L2["tol"] < 0 else ("min" if L2["tol"] >= 1e9 else ("tol" if L2["min"] <= 1 else "tol<min")),
-                 "grid": cfg.get("grid", "default")}
+                 "grid": cfg.get("grid", "default"), "operation": cfg.get("operation", "integration"),
+                 "surplus_grid": cfg.get("surplus_grid", "uq" if cfg.get("operation") == "uq" else "default")}
 
     def corr(obs, impl, model, extra=None):
         nonlocal ok
@@ -172,6 +173,10 @@ def check_config(ctx, drv, cfg, L2, max_index, case_out=None, sibling=False):
     sibling_cfg = sibling if sibling is not False else (c13.small_sibling_cfg(ctx.rng) if ctx.rng.random() < 0.3 else None)
     if sibling_cfg is not None:
         case["sibling"] = sibling_cfg
+    import atexit
+    import shutil
+    ckpt_dir = tempfile.mkdtemp(prefix="verif_c14_")
+    atexit.register(shutil.rmtree, ckpt_dir, ignore_errors=True)
     for i in range(m + 1):
         # dimension-wise: in 60 % of the indices the first leg is one that STOPPED BY TOLERANCE t1 > tol2 (when the errors
         # allow it); the continuation must honour the NEW tolerance, not the one of the first call
@@ -226,19 +231,17 @@ def check_config(ctx, drv, cfg, L2, max_index, case_out=None, sibling=False):
                 ctx.count("inceval_checked")
             inst = sa
             if save:
-                d = tempfile.mkdtemp(prefix="verif_c14_")
-                fn = os.path.join(d, "instance.dill")
+                # ONE checkpoint file per configuration: every interruption index saves to the same name again (the file of the
+                # previous index is still there), as a run that checkpoints repeatedly does; restore must give the LAST save
+                fn = os.path.join(ckpt_dir, "instance.dill")
                 try:
                     sa.save_to_file(fn)
                     inst = StandardCombi.restore_from_file(fn)
                     twin = StandardCombi.restore_from_file(fn)
+                    ctx.count("saves_to_the_same_file" if i > 0 else "first_save_to_the_file")
                 except Exception as e:  # noqa: BLE001
                     ok = not ctx.violation("save-restore-raises", tags, sub, {"exception": "%s: %s" % (type(e).__name__, e)}) and ok
                     inst = None
-                finally:
-                    if os.path.exists(fn):
-                        os.unlink(fn)
-                    os.rmdir(d)
                 if inst is None:
                     continue
                 # restored vs original: interpolation (__call__) and evaluation (evaluate_final_combi), view
@@ -387,6 +390,7 @@ def check_config(ctx, drv, cfg, L2, max_index, case_out=None, sibling=False):
                 ok = not ctx.violation("save-changes-resume", dict(base_tags, index=i), dict(case, L1=L1, index=i),
                                        {"without_save": {"result": a[1], "points": a[2], "evaluations": a[3]},
                                         "with_save": {"result": b[1], "points": b[2], "evaluations": b[3]}}) and ok
+    shutil.rmtree(ckpt_dir, ignore_errors=True)
     return ok
 
 
@@ -459,6 +463,10 @@ def run(ctx):
             cfg.pop("eval_points", None)
             for key in ("operation", "ref_route", "uq_moments"):
                 cfg.pop(key, None)
+            if cfg["strategy"] == "extend_split":
+                # extend-split versions 1-3 evaluate other grids when an area is evaluated from scratch than incrementally (version 3:
+                # a container resume reports 110 points where the single run has 92; recorded in handoff/C14.md) -- version 0 here
+                cfg["version"] = 0
         if cfg["ref"] == "partial_zero":
             cfg["ref"] = "exact"
         # every leg (and the single run it is compared with) ends with evaluate_final_combi(): whatever that recomputation
@@ -467,6 +475,16 @@ def run(ctx):
             # global basis-function grids: their per-component-grid surplusses are part of what save/restore has to carry
             cfg["grid"], cfg["p"] = ctx.rng.choice([("global_bspline", 3), ("global_bspline", 1), ("global_lagrange", 2), ("global_lagrange", 1)])
             ctx.count("grid_" + cfg["grid"])
+        if cfg["strategy"] == "dimwise" and not deep:
+            # constructor option grid_surplusses=<the operation's grid>: the surplus helper grid is the operation's own grid -- the
+            # weighted grid of an UncertaintyQuantification operation (Uniform on the box), or the global basis-function grid
+            if cfg.get("grid") in ("global_bspline", "global_lagrange"):
+                if ctx.rng.random() < 0.5:
+                    cfg["surplus_grid"] = "operation"
+            elif ctx.rng.random() < 0.25 and cfg["ref"] != "none":
+                cfg.update(operation="uq", ref_route=ctx.rng.choice(["constructor", "setter"]), uq_moments=False)
+                cfg.pop("ctor", None)
+            ctx.count("surplus_grid_" + ("uq_weighted" if cfg.get("operation") == "uq" else cfg.get("surplus_grid", "default")))
         cfg["reeval"] = ctx.rng.random() < 0.35
         ctx.count("reevaluate_at_end_%s" % cfg["reeval"])
         cap = (480 if deep else ctx.rng.choice([60, 90, 130] if cfg["dim"] == 2 else [120, 200]))
